@@ -3,6 +3,9 @@ CONSTANTS
  Recorders = {1, 2, 3}
  Drainers = {4, 5}
  LockedDrain = TRUE
-INVARIANTS TypeOK Conservation RenderFaithful RenderBounds CounterMeaning HelpFirst RenderTwice LabelsOK
+ BS = 64
+ DrainWaitsFirstBlockOnly = FALSE
+ CF07aFixed = FALSE
+INVARIANTS TypeOK Conservation RenderFaithful RenderBounds NoSkippedSample CounterMeaning HelpFirst RenderTwice LabelsOK
 POSTCONDITION TraceAccepted
 CHECK_DEADLOCK FALSE
